@@ -27,6 +27,7 @@ type finding struct {
 	op     string
 	class  string
 	detail string
+	stack  []string // timeouts: pdfcpu frames of the hung goroutine, innermost first
 }
 
 type worker struct {
@@ -126,6 +127,9 @@ func lowLevel(f string) bool {
 // hangFrame names the function a hung child was in: the recursing function if the trace repeats one,
 // else the innermost function above the dereference/type helpers.
 func hangFrame(stderr string) string {
+	if o := profileOwner(stderr); o != "" {
+		return o
+	}
 	l := frames(stderr, "main.runOp")
 	if len(l) == 0 {
 		l = frames(stderr, "") // dump cut short: take the first goroutine that shows pdfcpu frames
@@ -218,7 +222,7 @@ func runJobs(dir string, jobs []job, nw int, perOp time.Duration, onResult func(
 							b, _ := os.ReadFile(w.errPath)
 							class, detail := classifyFatal(string(b), curOp)
 							mu.Lock()
-							finds = append(finds, finding{j, curOp, class, detail})
+							finds = append(finds, finding{j, curOp, class, detail, nil})
 							mu.Unlock()
 							w = nil
 							done = true
@@ -232,7 +236,7 @@ func runJobs(dir string, jobs []job, nw int, perOp time.Duration, onResult func(
 							if len(f) >= 5 {
 								mu.Lock()
 								if strings.HasPrefix(f[3], "panic:") {
-									finds = append(finds, finding{j, f[2], f[3], f[4]})
+									finds = append(finds, finding{j, f[2], f[3], f[4], nil})
 								}
 								if onResult != nil {
 									onResult(j, f[2], f[3], f[4])
@@ -243,7 +247,15 @@ func runJobs(dir string, jobs []job, nw int, perOp time.Duration, onResult func(
 							done = true
 						}
 					case <-time.After(perOp):
-						// ask the child for its goroutine stacks, then kill it
+						// ask the child for a stack profile (SIGUSR1, see child.go hangProfile), then for its
+						// goroutine stacks (SIGQUIT), then kill it
+						w.cmd.Process.Signal(syscall.SIGUSR1)
+						for k := 0; k < 60; k++ {
+							time.Sleep(100 * time.Millisecond)
+							if b, _ := os.ReadFile(w.errPath); strings.Contains(string(b), "HANGPROFILE\t") {
+								break
+							}
+						}
 						w.cmd.Process.Signal(syscall.SIGQUIT)
 						waitDone := make(chan struct{})
 						go func(w *worker) {
@@ -253,17 +265,21 @@ func runJobs(dir string, jobs []job, nw int, perOp time.Duration, onResult func(
 						}(w)
 						select {
 						case <-waitDone:
-						case <-time.After(3 * time.Second):
+						case <-time.After(8 * time.Second):
 						}
 						w.kill()
 						b, _ := os.ReadFile(w.errPath)
 						mu.Lock()
 						hf := hangFrame(string(b))
+						hstack := frames(string(b), "main.runOp")
+						if len(hstack) == 0 {
+							hstack = frames(string(b), "")
+						}
 						cls := "timeout:" + hf
 						if hf == "pdfcpu/model.EqualObjects" || hf == "pdfcpu/model.equalDicts" || hf == "pdfcpu/model.equalArrays" {
 							cls = "fatal:stack-overflow-equalobjects-mixed-cycle" // the same unbounded recursion, caught before the stack cap
 						}
-						finds = append(finds, finding{j, curOp, cls, fmt.Sprintf("%s: no result within %v", curOp, perOp)})
+						finds = append(finds, finding{j, curOp, cls, fmt.Sprintf("%s: no result within %v%s", curOp, perOp, map[bool]string{true: " (profiled)", false: ""}[profileOwner(string(b)) != ""]), hstack})
 						mu.Unlock()
 						w = nil
 						done = true
@@ -274,4 +290,63 @@ func runJobs(dir string, jobs []job, nw int, perOp time.Duration, onResult func(
 	}
 	wg.Wait()
 	return finds
+}
+
+// loopOwner names a hang from TWO goroutine dumps of the same input: the innermost function that both
+// stacks share counted from the outermost frame — the function whose loop (or recursion) does not end;
+// what it happened to be calling at the moment of each dump differs and is ignored.
+func loopOwner(a, b []string) string {
+	if len(a) == 0 || len(b) == 0 {
+		return ""
+	}
+	if f, n := recursing(a); n >= 3 {
+		return f
+	}
+	i, j := len(a)-1, len(b)-1
+	owner := ""
+	for i >= 0 && j >= 0 && a[i] == b[j] {
+		if !lowLevel(a[i]) && !strings.HasPrefix(a[i], "api.") {
+			owner = a[i]
+		}
+		i--
+		j--
+	}
+	return owner
+}
+
+// profileOwner reads the HANGPROFILE line: a recursion is named after its (alphabetically first) recursing
+// function as before; otherwise the innermost function that was on the stack in every sample.
+func profileOwner(stderr string) string {
+	i := strings.Index(stderr, "HANGPROFILE\t")
+	if i < 0 {
+		return ""
+	}
+	line := stderr[i:]
+	if j := strings.Index(line, "\n"); j >= 0 {
+		line = line[:j]
+	}
+	f := strings.Split(line, "\t")
+	if len(f) < 3 {
+		return ""
+	}
+	if l := frames(stderr[i:], "main.runOp"); len(l) > 0 {
+		if rf, n := recursing(l); n >= 3 {
+			return rf
+		}
+	}
+	var n int
+	fmt.Sscanf(f[1], "%d", &n)
+	for _, e := range strings.Split(f[2], ";") {
+		k := strings.LastIndex(e, "=")
+		if k < 0 {
+			continue
+		}
+		var c int
+		fmt.Sscanf(e[k+1:], "%d", &c)
+		name := e[:k]
+		if c == n && !lowLevel(name) && !strings.HasPrefix(name, "api.") {
+			return name
+		}
+	}
+	return ""
 }
